@@ -113,7 +113,10 @@ def run_impl(p):
         qd = np.dtype(p.get("qdtype", p["kdtype"]))
         vals = p["vals"] if not isinstance(p["vals"], list) else np.array(p["vals"], dtype=p["vdtype"])
         kw = {} if p["mod"] is None else {"mod": p["mod"]}
+        keys0 = keys.copy()
+        vals0 = vals.copy() if isinstance(vals, np.ndarray) else vals
         t = HashTable(keys, vals, **kw)
+        twin = HashTable(keys, vals, **kw)        # a second table built from the SAME arrays, never written to
         hs = HashSet(keys, **kw)
         trace = []
         for o in p["ops"]:
@@ -167,6 +170,13 @@ def run_impl(p):
                     trace.append(False)
                 else:
                     trace.append({"k": "refuse"})
+        # the arrays handed to the constructor belong to the caller, and the twin table never changed
+        if not np.array_equal(keys, keys0) or (isinstance(vals, np.ndarray) and not np.array_equal(vals, vals0)):
+            raise AssertionError("the table wrote into the arrays it was constructed from")
+        now = [_num(x) for x in np.atleast_1d(twin[keys0])]
+        ini = [_num(x) for x in (vals0 if isinstance(vals0, np.ndarray) else [vals0] * len(keys0))]
+        if now != ini:
+            raise AssertionError("a table built from the same arrays changed along with this one")
         return {"k": "trace", "v": trace}
     return guarded(g)
 
